@@ -34,6 +34,21 @@ CLAIMED.update({
             "Back end is call-graph analysis, not SMT. The standard library is assumed to reach stdout/stderr only through the listed sinks; runtime panics excluded.", "§7 C27"),
 })
 
+CLAIMED.update({
+    "C02": ("Verify-before-deliver proved on processDataBlock for every path: rowBatcher.add requires (ghost typestate) that matchRowBytes just accepted the row, so per-row verification cannot be skipped or reordered; a batch is handed to deliver exactly once and forgotten (rowBatcher.flush), deliver performs at most one send on the row channel and exactly one when it returns nil; each scanner step consumes a strictly later extent (BlockRowScanner.Next).",
+            "matchRowBytes' own contract is assumed (gjson-bound body); matcher tree semantics and end-to-end multiset equality are not yet under contract (DESIGN §7 C02).", "§7 C02"),
+    "C03": ("Ownership obligations: materializeRow never takes a zero-copy view (ghost count of unsafeString calls unchanged: delivered rows are parsed from an independent copy); scan-buffer typestate (bufOwned) proved for getScanBuffer/putScanBuffer/readChunkFrom/filtersFor/release: a pooled buffer is returned at most once and the cursor never keeps a buffer it returned.",
+            "JSON fidelity versus encoding/json is not decided by contracts (bounded stand-in planned, DESIGN §7 C03); sync.Pool content invariant assumed (extern).", "§7 C03"),
+    "C20": ("Sequential state machine of the cursor proved: finish/terminate/Close's once-body decide err at most once (a decided terminal state is never overwritten), Next after completion returns false and changes nothing, every false return leaves a terminal state, and a cancellation observed by terminate yields an error wrapping the caller context's error.",
+            "Timing of Close versus Next across goroutines and 'eventually' are not decided (DESIGN §7 C20). context/fmt.Errorf externs assumed.", "§7 C20"),
+    "C21": ("Pairing and pool obligations: processDataBlock hands back (put or discard) every handle it acquired exactly once on every path, puts only after a successful read; fileHandlePool.acquire/put/release/retain/closeAll/closeHandles/discard proved against precise frames (they write only pool state), never close under the lock, close exactly the handles they must (closeHandles: one Close per handle); querySlot.acquire/release keep 'held <=> one token' so a failed acquire never leaks a token.",
+            "Goroutine termination and iterator return are not decided; evaluateBlockFilters' pairing is next (DESIGN §7 C21).", "§7 C21"),
+    "C22": ("Slot discipline: querySlot.acquire/release proved (no-op when already held / not held, exactly one token moved otherwise); deliver never blocks on the consumer while holding a slot (assertion at its blocking select); processDataBlock's store reads (handle acquire, row-data read) happen while the worker's slot is held.",
+            "The counting argument (tokens <= capacity => reads <= MaxQueryConcurrency) is on paper (DESIGN §7 C22).", "§7 C22"),
+    "C23": ("Accounting obligations: processDataBlock records exactly one stats entry on every exit path (never a skipped one); recordUnreadBlocks records one non-skipped entry per block; recordBlockStats appends exactly one entry; Stats counts every recorded block exactly once as skipped or processed and returns a copy of the entries.",
+            "Per-block sums (RowsScanned/BytesScanned equal the per-block sums) and evaluateBlockFilters' exactly-once accounting are next (DESIGN §7 C23).", "§7 C23"),
+})
+
 NOT_APPLICABLE = {
     "C14": "snapshot consistency under concurrent flush/merge is an interleaving-only property; no pre/postcondition of a single call expresses it (DESIGN §8)",
     "C15": "crash consistency needs a crash semantics and durability model (crash Hoare logic) the VC generator does not have (DESIGN §8)",
